@@ -10,7 +10,7 @@ change and record which checks catch it.
 """
 import json, os, shutil, subprocess, sys, tempfile, time
 
-VERIF = "/verif"
+VERIF = os.environ.get("SEED_EVAL_VERIF", "/verif")
 DESELECT = ["tests/test_sample_method.py::SampleMethodTestCase::test_sample_with_save_every",
             "tests/test_sampler_features.py::SamplerFeaturesTestCase::test_custom_output_dir",
             "tests/test_state.py::SamplerStateTestCase::test_resume"]
